@@ -140,7 +140,7 @@ add(
     H("m_get_array_checked_n7", "main", ["C10", "C14"], ["Parser::get_from_array_checked", "Parser::skip_space_peek"],
       "every buffer of length <= 7 x index 0..=3 x every E", stubs=[CUT_SYNTAX, M_WS, M_ONE, CUT_PIT], tier=T, cost=280),
     H("m_get_object_checked_n6", "main", ["C10", "C14"], ["Parser::get_from_object_checked", "Parser::parse_object_clo"],
-      "every buffer of length <= 6 x every escape-free ASCII key of length <= 2 x every E", stubs=[CUT_SYNTAX, M_WS, M_ONE, M_KEY, CUT_PIT], cost=290),
+      "every buffer of length <= 6 x every escape-free ASCII key of length <= 2 x every E", stubs=[CUT_SYNTAX, M_WS, M_ONE, M_KEY, CUT_PIT], cost=290, mem_gb=24, exp_gb=5),
     H("m_get_object_checked_n7", "main", ["C10", "C14"], ["Parser::get_from_object_checked", "Parser::parse_object_clo"],
       "every buffer of length <= 7 x every escape-free ASCII key of length <= 2 x every E", stubs=[CUT_SYNTAX, M_WS, M_ONE, M_KEY, CUT_PIT], tier=T, cost=400),
     H("m_get_object_checked_n9", "main", ["C10", "C14"], ["Parser::get_from_object_checked", "Parser::parse_object_clo"],
@@ -274,10 +274,12 @@ add(
       "raw text of each JSON value class (true,false,null,number,negative number,string,[],{}), conversion From<LazyValue>; string escape status symbolic", exp_gb=8, cost=12),
     H("u_owned_new_types", "main", ["C13", "C01"], ["OwnedLazyValue::new (used by to_lazyvalue and the parser)", "OwnedLazyValue::get_type/as_bool", "LazyRaw::get_type"],
       "raw text of each JSON value class, constructor `new`; string escape status symbolic", exp_gb=8, cost=12),
-    H("u_owned_view_of_raw_array", "main", ["C13", "C01"], ["OwnedLazyValue::as_array (raw value)", "impl Deref for LazyArray", "LazyRaw::load", "LazyRaw::get_type"],
-      "raw `[]`; the one-level parser cut to an empty array; no second reader", stubs=[CUT_LOAD, CUT_DROP], mem_gb=24, exp_gb=8, cost=60),
-    H("u_owned_view_of_raw_object", "main", ["C13", "C01"], ["OwnedLazyValue::as_object (raw value)", "impl Deref for LazyObject", "LazyRaw::load", "LazyRaw::get_type"],
-      "raw `{}`; the one-level parser cut to an empty object; no second reader", stubs=[CUT_LOAD, CUT_DROP], mem_gb=24, exp_gb=8, cost=60),
+    H("u_owned_get_mut_probe_keeps_raw", "main", ["C13"], ["OwnedLazyValue::get_mut", "OwnedLazyValue::get_mut_from_raw", "LazyRaw::get_type"],
+      "five concrete raw texts (two numbers, escaped string, [], {}) looked up with the index kind that cannot apply", stubs=[CUT_LOAD, CUT_DROP], mem_gb=28, exp_gb=8, cost=10),
+    H("u_owned_clone_loaded_keeps_raw", "main", ["C13"], ["impl Clone for LazyPacked", "LazyRaw::clone_lazyraw"],
+      "one concrete raw text (1.50), cache filled with a concrete scalar decoding", stubs=[ATOMIC, CUT_DROP], mem_gb=28, exp_gb=8, cost=15),
+    H("u_owned_clone_unloaded_keeps_raw", "main", ["C13"], ["impl Clone for LazyPacked", "LazyRaw::clone_lazyraw"],
+      "one concrete raw text (escaped string), cache empty", stubs=[ATOMIC, CUT_DROP], mem_gb=28, exp_gb=8, cost=15),
     H("u_owned_mut_probe_keeps_raw", "main", ["C13"], ["OwnedLazyValue::as_array_mut", "OwnedLazyValue::as_object_mut", "LazyRaw::get_type"],
       "four concrete raw texts (number, escaped string, {}, []) probed for the other container kind", stubs=[CUT_LOAD, CUT_DROP], mem_gb=28, exp_gb=8, cost=6),
     H("m_array_iter_latch", "main", ["C12", "C20"], ["ArrayJsonIter::next_elem_impl"],
@@ -290,6 +292,8 @@ add(
 
 # ================= serialization ==================================================================
 add(
+    H("u_map_key_char_goes_through_escaper", "main", ["C05"], ["MapKeySerializer::serialize_char", "Serializer::serialize_str", "Formatter::write_string_fast (routing)"],
+      "every char: the key reaches format_string as its UTF-8 bytes with need_quote, and nothing else is written", stubs=["cut: util::string::format_string -> recorder (the escaper is decided by the U-format harnesses)"], cost=20, native_replay=False),
     H("k_float_nonfinite_null", "main", ["C05", "C08"], ["Serializer::serialize_f64", "Serializer::serialize_f32", "Formatter::write_null/write_f64/write_f32"],
       "all 2^64 f64 and all 2^32 f32 bit patterns (complete for the finite/non-finite branch)",
       stubs=["cut: ryu::Buffer::format_finite -> \"1.5\" (digit generation is outside the claim)"], cost=2),
@@ -334,20 +338,26 @@ SMT_CUTS = ["opaque (paths through them are outside the claim and counted): pars
             "model: x << leading_zeros(x) as a fresh normalised n with lz free (over-approximation); counterexamples are made exact by pinning lz before replay",
             "dev-profile overflow assertion at `add + 1` (parse_floating_normal_fast bb23) is not decided by either solver and is not claimed"]
 _b = ",".join(str(e) for e in list(range(-312, -299)) + list(range(280, 296)))
-_s = ",".join(str(e) for e in sorted(set(range(-345, 346, 4)) | set(range(-25, 41))))
+_s = ",".join(str(e) for e in sorted(set(range(-344, 346, 8)) | set(range(-10, 31))))
 add(
     H("s_float_fast_bounds", "smt", ["C02", "C07", "C08"], SMT_FUNCS,
       "decimal exponents -312..=-300 and 280..=295 (both ends of the guard) x every significand 1 <= w < 10^19 x sign x trunc; 20 s per query",
-      stubs=SMT_CUTS, args=["--exps=" + _b, "--jobs", "6", "--timeout-ms", "20000"], cost=60, timeout=800),
+      stubs=SMT_CUTS, args=["float_check.py", "--exps=" + _b, "--jobs", "6", "--timeout-ms", "20000"], cost=60, timeout=800),
     H("s_float_fast_sampled", "smt", ["C07", "C08"], SMT_FUNCS,
-      "every 4th decimal exponent in -345..=345 and all of -25..=40 x every significand 1 <= w < 10^19 x sign x trunc; 20 s per query",
-      stubs=SMT_CUTS, args=["--exps=" + _s, "--jobs", "8", "--timeout-ms", "20000"], cost=200, timeout=850),
+      "every 8th decimal exponent in -344..=344 and all of -10..=30 x every significand 1 <= w < 10^19 x sign x trunc; 20 s per query",
+      stubs=SMT_CUTS, args=["float_check.py", "--exps=" + _s, "--jobs", "8", "--timeout-ms", "20000"], cost=150, timeout=850),
     H("s_float_fast_all", "smt", ["C02", "C07", "C08"], SMT_FUNCS,
       "every decimal exponent in -345..=345 x every significand 1 <= w < 10^19 x sign x trunc; 120 s per query",
-      stubs=SMT_CUTS, args=["--emin", "-345", "--emax", "345", "--jobs", "14", "--timeout-ms", "120000"], tier=T, cost=600, timeout=5400),
+      stubs=SMT_CUTS, args=["float_check.py", "--emin", "-345", "--emax", "345", "--jobs", "14", "--timeout-ms", "120000"], tier=T, cost=600, timeout=5400),
+    H("s_simd_str2int", "smt", ["C07", "C17"], ["sonic_number::arch::x86_64::simd_str2int (the SSE digit reader selected with avx2+pclmulqdq, i.e. by /repo's target-cpu=native)",
+                                               "macros packadd_1/2/4, simd_add_5_8, simd_add_9_15, simd_add_16"],
+      "need 1..=16 x position 1..=16 of the first non-digit (16 = none) x its class (three byte ranges) x every value of all 16 bytes; result == (decimal value of the first min(need, p) digits, min(need, p))",
+      stubs=["models: 16 x86 intrinsics lane-wise after the Intel pseudo-code (smt/mir2smt.py SIMD table; same semantics as harness/common/intrinsics.rs, which the self-test compares with the CPU)",
+             "assumption: the first byte is a digit (parse_number_fraction is entered on a digit)"],
+      args=["simd_check.py", "--jobs", "6", "--timeout-ms", "20000"], cost=10, timeout=600),
     H("s_float_fast_bounds_2solvers", "smt", ["C02", "C07", "C08"], SMT_FUNCS,
       "as s_float_fast_bounds, every rounding query answered by both z3 and cvc5 and compared",
-      stubs=SMT_CUTS, args=["--exps=" + _b, "--jobs", "14", "--timeout-ms", "60000", "--both"], tier=T, cost=600, timeout=5400),
+      stubs=SMT_CUTS, args=["float_check.py", "--exps=" + _b, "--jobs", "14", "--timeout-ms", "60000", "--both"], tier=T, cost=600, timeout=5400),
 )
 
 # ================= sonic-simd (selected backend) and the external crate ===========================
@@ -388,6 +398,10 @@ for _k in range(1, 10):  # need = 10..16 did not finish within 20 minutes (64-bi
 
 # ---- experimental harnesses: kept in the harness files, runnable with --dev, not part of any claim ----
 EXPERIMENTAL = [
+    H("u_owned_view_of_raw_array", "main", [], ["OwnedLazyValue::as_array (raw value)", "impl Deref for LazyArray", "LazyRaw::load", "LazyRaw::get_type"],
+      "raw `[]`; the one-level parser cut to an empty array; no second reader", stubs=[CUT_LOAD, CUT_DROP], mem_gb=24, exp_gb=8, cost=60),
+    H("u_owned_view_of_raw_object", "main", [], ["OwnedLazyValue::as_object (raw value)", "impl Deref for LazyObject", "LazyRaw::load", "LazyRaw::get_type"],
+      "raw `{}`; the one-level parser cut to an empty object; no second reader", stubs=[CUT_LOAD, CUT_DROP], mem_gb=24, exp_gb=8, cost=60),
     H("u_parse_string_inplace_n6", "main", [], ["util::string::parse_string_inplace"], "6-byte symbolic document + real padding, strict", stubs=[MAXEPU8], tier=T, timeout=3600, mem_gb=32, exp_gb=16,
       unwindset=[("parse_string_inplace", None, 9), ("ref_decode_string", None, 11), ("inplace_body", None, 8)]),
     H("u_parse_string_inplace_lossy_n6", "main", [], ["util::string::parse_string_inplace"], "6-byte symbolic document + real padding, lossy", stubs=[MAXEPU8], tier=T, timeout=3600, mem_gb=32, exp_gb=16,
